@@ -4,7 +4,8 @@ import torch
 
 class PosCoded(torch.nn.Module):
     """F(x, a, t) = sum_p (x[p]+1)*(p*p+t) + t*(x[1]+1)*(x[L]+1) + a*(t+1)   (p 1-based) -- see spec/ISMOps.tla.
-    out='tensor': (n, T);  out='tuple': ((n, T), (n, 2, 2)) where the second output uses t+7."""
+    out='tensor': (n, T);  out='tuple': ((n, T), (n, 2, 2)) where the second output uses t+7; 'triple' adds (n, 3) with t+20.
+    Two extra arguments are combined as a + 100*a1 (spec/WrappersOps.tla)."""
 
     def __init__(self, T, out="tensor"):
         super().__init__()
@@ -22,10 +23,17 @@ class PosCoded(torch.nn.Module):
             y = y + a.double().reshape(n, 1) * (ts[None, :].double() + 1)
         return y
 
-    def forward(self, X, a=None):
+    def forward(self, X, a=None, a1=None):
         self.calls += 1
+        if a1 is not None:
+            a = a.double().reshape(-1) + 100 * a1.double().reshape(-1)
         y = self._f(X, a, torch.arange(self.T))
         if self.out == "tensor":
             return y
         y2 = self._f(X, a, torch.arange(4) + 7).reshape(-1, 2, 2)
-        return (y, y2) if self.out == "tuple" else [y, y2]
+        if self.out == "tuple":
+            return (y, y2)
+        if self.out == "list":
+            return [y, y2]
+        y3 = self._f(X, a, torch.arange(3) + 20)
+        return (y, y2, y3)          # "triple"
